@@ -1,5 +1,6 @@
 //! C16 — raw frame streams are self-describing; the stream reader fabricates no frame.
 
+use crate::api::{make_options, EncCfg};
 use crate::io::SegBuf;
 use crate::json::J;
 use crate::mon;
@@ -80,9 +81,21 @@ pub struct StreamCase {
 pub fn build_case(rng: &mut Rng, rep: &mut Report, thorough: bool) -> Option<StreamCase> {
     let nframes = rng.usize(1, if thorough { 20 } else { 8 });
     let garbage = *rng.pick(&["none", "none", "sync-free", "sync-free", "sync-rich"]);
+    // any option set: the stream writer shares the channel-correlation, LPC and residual code of
+    // the file writers (fast / exhaustive correlation, mid-side on or off, windows, orders)
     let mut opts = Options::default();
-    if rng.chance(1, 2) {
-        opts = Options::fast();
+    match rng.below(4) {
+        0 => opts = Options::fast(),
+        1 => opts = Options::best(),
+        2 => {}
+        _ => {
+            let mut cfg = EncCfg::random(rng);
+            cfg.extras = 0;
+            if let Ok(o) = make_options(&cfg) {
+                opts = o;
+            }
+            rep.count("writer_options", format!("fast={} mid_side={}", cfg.fast, cfg.mid_side));
+        }
     }
     let mut out: Vec<u8> = vec![];
     let mut model = vec![];
